@@ -237,6 +237,8 @@ struct Node<C: SimCfg> {
     last_wait_frame: Option<i32>,
     last_quality_report: Option<i32>,
     frame_at_heal: Option<i32>,
+    /// per player: the last frame this node held of it at the moment it marked it disconnected
+    cut_amount: BTreeMap<usize, i32>,
 }
 
 #[derive(Clone, Debug, Default)]
@@ -353,13 +355,16 @@ impl<'p, C: SimCfg> World<'p, C> {
         let mut split = false;
         for v in dead {
             for &pl in &self.nodes[v].locals {
+                // "received" is measured when a survivor marks the player disconnected: what a
+                // session does to its record of the last frame afterwards is behaviour under test,
+                // not a precondition
                 let lfs: Vec<i32> = self
                     .plan
                     .peers()
                     .into_iter()
                     .filter(|&i| self.plan.nodes[i].tick.stop_us.is_none())
                     .filter_map(|i| match &self.nodes[i].sess {
-                        Sess::Peer(s) => s.verif_connect_status(pl).map(|c| c.1),
+                        Sess::Peer(s) => self.nodes[i].cut_amount.get(&pl).copied().or_else(|| s.verif_connect_status(pl).map(|c| c.1)),
                         _ => None,
                     })
                     .collect();
@@ -1036,6 +1041,14 @@ impl<'p, C: SimCfg> World<'p, C> {
         let evs = self.drain_events(i);
         self.check_lifecycle(i, &recv, &evs);
         self.check_buffers(i);
+        let node = &mut self.nodes[i];
+        if let Sess::Peer(s) = &node.sess {
+            for p in 0..self.plan.cfg.num_players {
+                if let Some((true, lf)) = s.verif_connect_status(p) {
+                    node.cut_amount.entry(p).or_insert(lf);
+                }
+            }
+        }
     }
 
     fn do_api(&mut self, i: usize) {
@@ -1965,6 +1978,7 @@ impl<C: SimCfg> Node<C> {
             last_wait_frame: None,
             last_quality_report: None,
             frame_at_heal: None,
+            cut_amount: BTreeMap::new(),
         }
     }
 }
